@@ -273,7 +273,9 @@ func c18Build(items []c18item, srvKinds, upKinds []string, how int, upAddr func(
 			}
 			uc := router.UpstreamConfig{Tag: tag, Addr: addr, Tls: router.TlsConfig{InsecureSkipVerify: true}}
 			if !it.ok {
-				switch how % 4 {
+				switch how % 5 {
+				case 4: // the upstream itself is created (quic / h3: with its socket); registering its metrics fails (D64)
+					uc.Tag = "u\xff" + strconv.Itoa(ui)
 				case 0:
 					uc.Addr = "foo://127.0.0.1:53"
 				case 1:
@@ -482,6 +484,10 @@ func c18StartupGen(r *rand.Rand, thorough bool, emit func(c, cat string)) {
 		n = 400
 	}
 	srvKinds := c18SrvKinds
+	// an upstream that owns a socket as soon as it is created and then fails at the metrics registration
+	for _, kind := range []string{"quic", "h3"} {
+		emit("it=u+1,u-1 srv=- ups=udp,"+kind+" how=4", "upstream-metrics-error")
+	}
 	for i := 0; i < n; i++ {
 		var items []string
 		var srv, ups []string
